@@ -285,11 +285,20 @@ class HttpProxyPlugin(HttpProtocolHandlerPlugin):
             # tls interception is enabled
             if raw is not None:
                 if not self.request.is_https_tunnel or self._tls_intercept_enabled:
-                    if self.response.is_complete:
-                        self.handle_pipeline_response(raw)
-                    else:
-                        self.response.parse(raw)
-                        self.emit_response_events(len(raw))
+                    try:
+                        if self.response.is_complete:
+                            self.handle_pipeline_response(raw)
+                        else:
+                            self.response.parse(raw)
+                            self.emit_response_events(len(raw))
+                    except Exception as e:
+                        # Parsing responses only feeds access logs and events.
+                        # Data that does not parse as a response (e.g. the
+                        # close-delimited body of a response whose headers
+                        # arrived on their own) must still reach the client.
+                        logger.debug(
+                            'Unable to parse data received from upstream %r' % e,
+                        )
                 else:
                     self.response.total_size += len(raw)
                 # queue raw data for client
